@@ -653,7 +653,8 @@ def check_c32(A: Analysis, col: Collector):
     A.anchor("the emitted dictionary literal (with a 'type' key) in unstructure", dicts)
     keys = []
     for k in dicts[0].value.keys:
-        keys.append(k.value if isinstance(k, ast.Constant) else norm(k))
+        # a key given through a local bound once is that binding (task_class._executor_name)
+        keys.append(k.value if isinstance(k, ast.Constant) else norm(A.expand(k, un)))
     # fields are emitted in declaration order: positional semantics depend on it (a python task assigns a
     # returned tuple to its outputs by position; shell positions default to definition order)
     fcomps = [k for k in walk_own(un.node) if isinstance(k, (ast.ListComp, ast.GeneratorExp)) and any(isinstance(c, ast.Call) and norm(c.func).endswith("asdict") for c in ast.walk(k.elt))]
